@@ -75,6 +75,31 @@ def c14(tier):
     for r in recs:
         if not r.get("summary"):
             ck.discrepancy({"kind": r["kind"], "history_kind": r["history_kind"].replace("_noclear", ""), "pawnless": r["detail"]["pawnless"]}, r)
+    # R: behaviours of the hash-table model (HashTable.tla: insert / probe / clear / epoch / hashfull) replayed into the engine's real
+    # template (1024-slot instantiation); a probe that reports a wrong hit or value breaks cache transparency for some history
+    htd = core.tlc_ok(core.tlc("HashTable.tla", cfg="HashTable.cfg", workers=4, timeout=900, xmx="6g", metadir=os.path.join(ck.work, "md_ht")), "HashTable")
+    ck.add_states(htd["generated"], htd["distinct"])
+    hts = core.tlc_ok(core.tlc("HashTable.tla", cfg="HashTableSim.cfg", workers=4, timeout=900, metadir=os.path.join(ck.work, "md_hts"),
+                               simulate="num=%d" % (5000 if full else 600), extra=["-depth", "16", "-seed", str(core.seed())]), "HashTable simulate")
+    beh = sorted(set(x[3:] for x in hts["strings"] if x.startswith("HT ")))
+    if len(beh) < 100:
+        raise InfraError("hash table simulation produced %d behaviours" % len(beh))
+    hin = os.path.join(ck.work, "ht.ndjson")
+    open(hin, "w").write("\n".join(beh) + "\n")
+    hout = os.path.join(ck.work, "ht.res")
+    core.run_vh(exe, ["hashtable-replay", "--in", hin, "--out", hout])
+    hrecs = [json.loads(l) for l in open(hout)]
+    hsum = [r for r in hrecs if r.get("summary")][0]
+    for r in hrecs:
+        if r.get("summary"):
+            continue
+        d = r["detail"]
+        if r["kind"] == "probe" and (d["expected"][0] != d["got"][0] or d["expected"][1] != d["got"][1]):
+            ck.discrepancy({"kind": "hash_table_probe"}, dict(r, prop="C14"))
+        else:
+            ck.notes.append("hash table model mismatch outside C14 (epoch / hashfull): %s" % json.dumps(r)[:300])
+    ck.cov["hash_table_model"] = dict(design_states=htd["distinct"], behaviours_replayed=hsum["behaviours"], operations=hsum["operations"])
+    ck.cov["traces_validated_against_impl"] += hsum["behaviours"]
     # T: streams
     core.run_vh(exe, ["eval-pure", "--roots", roots(ck), "--games", 1500 if full else 100, "--maxply", 120, "--per-class", 400 if full else 40, "--fresh-every", 4,
                       "--shards", 16, "--out", ck.work, "--stem", "pure", "--seed", core.seed()], timeout=3000)
@@ -86,7 +111,7 @@ def c14(tier):
         if v["prop"] == "C14":
             ck.discrepancy({"kind": v["kind"], "class": v["detail"]["class"]}, v)
     ck.add_states(st["generated"], st["distinct"])
-    ck.cov["traces_validated_against_impl"] = st["shards"] + summ["histories"]
+    ck.cov["traces_validated_against_impl"] += st["shards"] + summ["histories"]
     ck.cov["evaluations"] = cnt["evals"] + summ["evaluations"]
     ck.cov["distinct_nontrivial"] = summ["histories"] + cnt["fresh_cmp"]
     ck.cov["rule"] = ("(1) design level: EvalCache.tla, all histories of <= 6 Eval/Clear operations over 8 keys and 4 slots (exhaustive); (2) its counterexample shapes concretised "
